@@ -160,6 +160,35 @@ func c10globalAs(c *core.Ctx, R string) {
 		}
 		return nil
 	}
+	onceWritten := map[*ssa.Global]bool{}
+	// a closure that its parent hands to (*sync.Once).Do
+	onceClosure := func(f *ssa.Function) bool {
+		p := f.Parent()
+		if p == nil {
+			return false
+		}
+		for _, b := range p.Blocks {
+			for _, in := range b.Instrs {
+				call, ok := in.(ssa.CallInstruction)
+				if !ok {
+					continue
+				}
+				g := call.Common().StaticCallee()
+				if g == nil || g.String() != "(*sync.Once).Do" {
+					continue
+				}
+				for _, a := range call.Common().Args {
+					if mc, isMC := a.(*ssa.MakeClosure); isMC && mc.Fn == ssa.Value(f) {
+						return true
+					}
+					if a == ssa.Value(f) {
+						return true
+					}
+				}
+			}
+		}
+		return false
+	}
 	for _, f := range c.P.ScopeFuncs() {
 		if f.Name() == "init" || strings.HasPrefix(f.Name(), "init#") {
 			continue
@@ -177,8 +206,11 @@ func c10globalAs(c *core.Ctx, R string) {
 						g = derived(x.Common().Args[0], 0)
 					}
 				}
-				if g != nil && writers[g] == "" {
+				if g != nil && !onceClosure(f) && writers[g] == "" {
 					writers[g] = core.FuncName(f) + " at " + c.P.Pos(in.Pos())
+				}
+				if g != nil && onceClosure(f) {
+					onceWritten[g] = true
 				}
 			}
 		}
@@ -193,6 +225,10 @@ func c10globalAs(c *core.Ctx, R string) {
 		}
 		if w := writers[g]; w != "" {
 			c.Bad(R, name, pos, "package variable "+name, "written after initialisation by "+w+": results depend on the history of the process (and concurrent use races)")
+			continue
+		}
+		if onceWritten[g] {
+			c.OKd(R, name, pos, "package variable "+name+" ("+core.Rel(t.String())+")", "written only inside a function handed to sync.Once.Do: a lazily built singleton")
 			continue
 		}
 		c.OK(R, name, pos, "package variable "+name+" ("+core.Rel(t.String())+") is never written outside init")
